@@ -13,6 +13,7 @@ import (
 	"unicode/utf16"
 
 	"github.com/evanw/esbuild/internal/compat"
+	"github.com/evanw/esbuild/internal/helpers"
 	"github.com/evanw/esbuild/internal/js_printer"
 	. "github.com/evanw/esbuild/verifharness/hlib"
 )
@@ -299,6 +300,39 @@ func corrStrings(r *Rng, st *Stats, cf *CoqFile, n int) (extra string) {
 			}()
 		}
 	}
+	// helpers/utf.go
+	var utf, wr []string
+	for k := 0; k < total/2; k++ {
+		var units []uint16
+		if k < len(grid) {
+			units = grid[k]
+		} else {
+			units, _ = randUnits(r)
+		}
+		w := helpers.UTF16ToString(units)
+		back := helpers.StringToUTF16(w)
+		st.Note("utf16-wtf8", fmt.Sprint(units), !sameUnits(back, units))
+		utf = append(utf, fmt.Sprintf("(%s, %s, %s)", CU16(units), CBytes([]byte(w)), CU16(back)))
+		// DecodeWTF8Rune on a mutated / truncated suffix
+		b := []byte(w)
+		if len(b) > 0 {
+			b = b[r.Intn(len(b)):]
+			if r.Chance(40) {
+				b[r.Intn(len(b))] = byte(r.Intn(256))
+			}
+			if r.Chance(30) {
+				b = b[:r.Intn(len(b))+1]
+			}
+			if len(b) > 6 {
+				b = b[:6]
+			}
+		}
+		rn, width := helpers.DecodeWTF8Rune(string(b))
+		st.Note("decode-wtf8-rune", fmt.Sprint(b), len(b) > 0 && b[0] >= 0x80)
+		wr = append(wr, fmt.Sprintf("(%s, %d, %d)", CBytes(b), rn, width))
+	}
+	cf.AddCases("utf", "list Z * bytes * list Z", "check_utf", utf)
+	cf.AddCases("wtf8rune", "bytes * Z * Z", "check_wtf8rune", wr)
 	typ := "qcfg * bool * bool * bytes * list Z * bytes"
 	cf.AddCases("quoted", typ, "check_quoted", quo)
 	cf.AddCases("unquoted", "qcfg * Z * bool * bytes * list Z * bytes", "check_unquoted", unq)
